@@ -127,7 +127,19 @@ def initial_states(D, N, C, seed, ternary, sol):
         st += 0.4 * (s + 1)
         out.append(st)
     if sol:
-        out = [project_solenoidal(s) + 0.3 for s in out]
+        # 3D velocity form: the mean of u x omega vanishes for solenoidal fields; the term pre-truncates its input to the retained band, so only the
+        # IN-BAND part must be solenoidal - content outside the band (Nyquist planes included) stays arbitrary and must be ignored
+        K = ref.band_limit(D, N, 2 / 3)
+        kk = np.stack(np.meshgrid(*[np.fft.fftfreq(N, 1.0 / N)] * D, indexing="ij"))
+        inband = np.all(np.abs(kk) <= K, axis=0)
+        axes = tuple(range(-D, 0))
+        new_out = []
+        for s in out:
+            sh = np.fft.fftn(s, axes=axes)
+            s_in = np.real(np.fft.ifftn(sh * inband, axes=axes))
+            s_rest = s - s_in
+            new_out.append(project_solenoidal(s_in) + s_rest + 0.3)
+        out = new_out
     return out
 
 
